@@ -149,12 +149,13 @@ func RunCurrency(w *tr.Writer, st *CurStats, r *rand.Rand, nrand int) {
 		}
 	}
 	pairs := [][2]uint64{}
-	// every boundary pair is too many (200^2 = 40k is fine for thorough); sample deterministically
+	// quick: a deterministic seventh of the boundary pairs; thorough (nrand >= 1000): every boundary pair
+	full := nrand >= 1000
 	nb := len(set)
 	for i, a := range vals {
 		for j, b := range vals {
 			if i < nb && j < nb {
-				if (i*31+j*17)%7 == 0 || a <= 3 || b <= 3 || a == math.MaxUint64 || b == math.MaxUint64 {
+				if full || (i*31+j*17)%7 == 0 || a <= 3 || b <= 3 || a == math.MaxUint64 || b == math.MaxUint64 {
 					pairs = append(pairs, [2]uint64{a, b})
 				}
 			}
